@@ -25,6 +25,8 @@ import sys
 import argparse
 import hashlib
 
+sys.path.insert(0, os.path.dirname(os.path.abspath(__file__)))
+
 
 class Untranslatable(Exception):
     def __init__(self, function, line, construct):
@@ -267,7 +269,9 @@ def gen_consts(repo, ns):
     return {"Consts.lean": "\n".join(text)}
 
 
-TARGETS = [gen_sdof_ab, gen_consts]
+from py2lean_struct import gen_cache_table, gen_effects, Untranslatable as UntranslatableS  # noqa: E402
+
+TARGETS = [gen_sdof_ab, gen_consts, gen_cache_table, gen_effects]
 
 
 def main():
@@ -284,7 +288,7 @@ def main():
     for tgt in TARGETS:
         try:
             files = tgt(args.repo, ns)
-        except Untranslatable as u:
+        except (Untranslatable, UntranslatableS) as u:
             report['untranslatable'].append({'target': tgt.__name__, 'function': u.function, 'line': u.line,
                                              'construct': u.construct})
             continue
